@@ -48,13 +48,12 @@ func VerifH_C13_foreach_items() {
 	verifrt.Assert(r.ProvideStageInput("enabling", map[string]any{"enabled": nil}) == nil, "enabling input accepted")
 	verifrt.Assert(r.ProvideStageInput("execute", in) == nil, "execute input accepted")
 	verifrt.AwaitQuiescence()
-	// all item runs that may start have started and wait at the gate
-	want := n
-	if p < n {
-		want = p
-	}
+	// the item runs that were started wait at the gate (how many the step starts at once below the
+	// limit is not prescribed by the property)
 	verifrt.Assert(sub.live <= p, "never more than 'parallelism' item runs at a time")
-	verifrt.Assert(sub.live == want, "min(parallelism, n) item runs are started concurrently")
+	if n > 0 {
+		verifrt.Assert(sub.live >= 1, "the loop step starts working on its items")
+	}
 	close(sub.gate)
 	verifrt.AwaitQuiescence()
 	verifrt.Assert(sub.max <= p, "never more than 'parallelism' item runs at a time (whole run)")
